@@ -223,6 +223,16 @@ def check(ctx):
     c07.check_history(sub, p)
     for r in sub.results:
         ctx.ob(r[0].replace('C07.R1', 'C03.R1.history'), r[1], r[2], r[3], site=r[4])
+    # the position key: restored by the undo functions through the same incremental updates; C04.R1 decides that at every exit
+    # of undo_move/undo_null_move each key component matches the restored field
+    import props.C04 as c04
+    sub = SubCtx(ctx)
+    c04.check(sub)
+    badk = [r for r in sub.results if not r[2] and r[0].startswith('C04.R1') and ('undo' in r[1] or 'null' in r[1])]
+    ctx.ob('C03.R1.key-restored', 'undo_move/undo_null_move', not badk,
+           'after taking a (null) move back every component of the position key matches the restored field (C04.R1)%s'
+           % ('' if not badk else ' — refuted: ' + '; '.join('%s %s at %s' % (r[0], r[1], r[4]) for r in badk[:4])),
+           site=badk[0][4] if badk else undo.loc())
     # every Position field written (transitively) by do_* is accounted for
     handled = {'_board', '_by_color_bb', '_by_piece_kind_bb', '_piece_position', '_piece_count', '_zobrist_hash',
                '_current_side', '_ply_counter', '_history_counter', '_half_move_counter', '_castling_rights',
